@@ -195,17 +195,16 @@ class Parser:
             if not isinstance(body, dict):
                 raise Unsupported("deref body")
             fields = {}
-            for k, v in body.items():
-                if k == "times":
-                    continue
-                if k not in ("main_reg", "constant_offset", "register_multiplier", "constant_multiplier"):
+            for k in body:
+                if k != "times" and k not in ("main_reg", "constant_offset", "register_multiplier", "constant_multiplier"):
                     raise Unsupported("deref field " + str(k))
-                fields[k] = self.dval(v, k)
+            # first occurrences are counted in the order the components stand in the operand (base, index, scale, displacement),
+            # whatever the key order of the mapping
+            for k in ("main_reg", "register_multiplier", "constant_multiplier", "constant_offset"):
+                if k in body:
+                    fields[k] = self.dval(body[k], k)
             if "main_reg" not in fields:
                 raise Unsupported("deref without main_reg")
-            caps = [f for f in ("main_reg", "register_multiplier") if f in fields and any(isinstance(x, Node) for x in fields[f])]
-            if len(caps) > 1:
-                raise Unsupported("two register-family captures in one $deref")
             return Node("oderef", None, None, lo, hi, extra=fields)
         raise Unsupported("operand dict " + str(name))
 
